@@ -36,9 +36,7 @@ class BreakOrContinueOutOfLoopTransformer(
         original_node: cst.Break | cst.Continue,
         updated_node: cst.Break | cst.Continue,
     ):
-        if not self.filter_by_path_includes_or_excludes(
-            self.node_position(original_node)
-        ):
+        if not self.node_is_selected(original_node):
             return updated_node
         ancestors = self.path_to_root(original_node)
 
